@@ -63,7 +63,7 @@ def PC.held : PC → List NoteId
     | _ => stk.map Frame.note ++ top.par.toList
   | .newP pos _ p _ =>
     match pos with
-    | .ld | .unlockCall => [p]
+    | .ld | .st | .unlockCall => [p]
     | _ => []
   | .fr pos n par c _ =>
     match pos with
